@@ -521,6 +521,78 @@ func (e *env) goClient() {
 	e.res.Case("goclient", true)
 }
 
+// the Go client recovers twice in a row with nothing live in between: what was replayed the first time (it arrives
+// before the CONNECT reply when the namespace has a slow middleware) is not replayed again
+func (e *env) goClientTwice() {
+	const W, tol = 1500 * time.Millisecond, 10 * time.Millisecond
+	vtrace.SetObjectFilter(func(any) bool { return false })
+	id := e.begin("e2e-goclient-twice", W, tol)
+	w, err := newE2E(W, true, func() { time.Sleep(120 * time.Millisecond) })
+	if err != nil {
+		e.res.Inconclusive("rig", err.Error(), id)
+		e.end()
+		return
+	}
+	defer w.srv.Close()
+	d := 10 * time.Millisecond
+	m := rig.NewManager(w.srv.URL(), []string{"websocket"}, &sio.ManagerConfig{ReconnectionDelay: &d, ReconnectionDelayMax: &d})
+	defer m.Close()
+	c := m.Socket("/", nil)
+	var mu sync.Mutex
+	connects := 0
+	var got []string
+	c.OnEvent("ev", func(n int, x int) { mu.Lock(); got = append(got, fmt.Sprintf("m%d", n)); mu.Unlock() })
+	c.OnConnect(func() { mu.Lock(); connects++; mu.Unlock() })
+	c.Connect()
+	waitConn := func(k int) bool {
+		return rig.WaitUntil(5*time.Second, func() bool { mu.Lock(); defer mu.Unlock(); return connects >= k })
+	}
+	waitGot := func(k int) bool {
+		return rig.WaitUntil(3*time.Second, func() bool { mu.Lock(); defer mu.Unlock(); return len(got) >= k })
+	}
+	if !waitConn(1) {
+		e.res.Inconclusive("goclient", "no connect", id)
+		e.end()
+		return
+	}
+	ss := w.waitSock(1)
+	rig.WaitUntil(2*time.Second, func() bool { return ss != nil && ss.Rooms().Contains("r1") })
+	emit(w, ss, "nsp", 1, false)
+	waitGot(1)
+	recoveredBoth := true
+	for round := 0; round < 2; round++ {
+		w.mu.Lock()
+		cur := w.socks[len(w.socks)-1]
+		w.mu.Unlock()
+		mu.Lock()
+		before := connects
+		mu.Unlock()
+		sio.VerifCloseEngine(cur)
+		rig.WaitUntil(3*time.Second, func() bool { w.mu.Lock(); defer w.mu.Unlock(); return w.discs >= round+1 })
+		emit(w, nil, "nsp", round+2, false) // missed while away
+		if !waitConn(before + 1) {
+			e.res.Inconclusive("goclient", "no reconnect", id)
+			e.end()
+			return
+		}
+		waitGot(round + 2)
+		time.Sleep(60 * time.Millisecond) // nothing live in between
+		ss2 := w.waitSock(round + 2)
+		if ss2 == nil || !ss2.Recovered() || !c.Recovered() {
+			recoveredBoth = false
+		}
+	}
+	time.Sleep(100 * time.Millisecond)
+	mu.Lock()
+	received := append([]string{}, got...)
+	mu.Unlock()
+	vtrace.Emit("e2e", "class", "e2e-goclient-twice", "client", "go", "recovered", recoveredBoth, "expectRecovered", true, "clientRecovered", recoveredBoth,
+		"sameSid", true, "roomsOk", true, "addressed", []string{"m1", "m2", "m3"}, "received", received,
+		"intact", true, "binary", false, "strict", true, "comfortable", false)
+	e.end()
+	e.res.Case("goclient-twice", true)
+}
+
 func TestC08(t *testing.T) {
 	out := vres.OutDir()
 	res := vres.New()
@@ -562,6 +634,7 @@ func TestC08(t *testing.T) {
 		e.e2eRaw(p)
 	}
 	e.goClient()
+	e.goClientTwice()
 	// recorded findings, reproduced deterministically
 	e.e2eRaw(e2eParams{Kinds: []string{"nsp", "room", "room"}, K: 1, Delay: "short", Offset: "valid", PID: "valid", Binary: true, Sig: "k1-binary-replay"})
 	e.e2eRaw(e2eParams{Kinds: []string{"nsp", "room"}, K: 1, Delay: "short", Offset: "valid", PID: "valid", GateMw: true, Sig: "k6-broadcast-during-restore"})
